@@ -57,6 +57,14 @@ def parseStatus (t : String) : Option (Option StatusView) :=
   if t == "~" then some none
   else if t == "o" then some (some ⟨false, none, [], false⟩)
   else if t.startsWith "b" then (t.drop 1).toString.toNat?.map fun n => some ⟨true, some (some (some n)), [some n], true⟩
+  else if t.startsWith "m" then
+    match (t.drop 1).toString.splitOn "." with
+    | [i, q] => do
+      let i ← i.toNat?
+      let q ← q.toNat?
+      pure (some ⟨true, some (some (some i)), [some q], true⟩)
+    | _ => none
+  else if t.startsWith "a" then (t.drop 1).toString.toNat?.map fun q => some ⟨true, none, [some q], true⟩
   else none
 
 def onat (m : List (String × String)) (k : String) : Option (Option Nat) :=
@@ -71,7 +79,7 @@ def parseToken (t : String) : Option Token :=
     get m "ctx", get m "typ", get m "spe", get m "nt", (get m "st").bind parseStatus with
   | some kid, some hn, some sig, some (cl, isDid), some ctx, some typ, some spe, some nt, some st =>
     some ⟨kid, hn, sig, cl, isDid, ctx == "1", typ == "1", spe == "1",
-      (if nt == "~" then none else some (nt == "1")), st⟩
+      (if nt == "~" then none else some (nt == "1")), st, get m "sd" != some "0"⟩
   | _, _, _, _, _, _, _, _, _ => none
 
 def parseScopeOpt (t : String) : Option (Option Scope) :=
@@ -111,7 +119,7 @@ def showVRes : VRes → String
 def showVErr : VErr → String
   | .nonce => "nonce" | .kidMissing => "kidMissing" | .kidParse => "kidParse" | .documentMismatch => "documentMismatch"
   | .methodLookup => "methodLookup" | .signature => "signature" | .claimsJson => "claimsJson"
-  | .claims e => "claims:" ++ C07.showCErr e | .signerUrl => "signerUrl" | .identifierMismatch => "identifierMismatch"
+  | .sdDecode => "sdDecode" | .claims e => "claims:" ++ C07.showCErr e | .signerUrl => "signerUrl" | .identifierMismatch => "identifierMismatch"
   | .issuanceDate => "issuanceDate" | .expirationDate => "expirationDate" | .structure => "structure"
   | .subjectHolder => "subjectHolder" | .status v => "status:" ++ showVRes v
 
